@@ -59,11 +59,11 @@ VARIANTS_MEM = [dict(name='x1', scale=1, icompare=True), dict(name='x8', scale=8
 
 
 def consts(nb, maxarr, keys=1, callers=1, high=99, low=99, timeout=99, maxtick=0, fixd1=True, fixd3=True,
-           atomic=True, script='<- NoScript'):
+           atomic=True, scripts='<- NoScript'):
     return dict(NB=nb, MaxArr=maxarr, Keys=MV('{%s}' % ', '.join(str(i) for i in range(1, keys + 1))),
                 Callers=MV('{%s}' % ', '.join(str(i) for i in range(1, callers + 1))),
                 High=high, Low=low, Timeout=timeout, MaxTick=maxtick, FixD1=fixd1, FixD3=fixd3, Atomic=atomic,
-                Script=script)
+                Scripts=scripts)
 
 
 # ------------------------------------------------------------------ P-level helpers (classification only)
@@ -108,27 +108,14 @@ def brief(seg, n=40):
     return out
 
 
-def report_rejections(ctx, kind, segs, rej, extra=None):
-    for si, ln in rej:
-        seg = segs[si]
-        ev = seg[ln] if ln < len(seg) else {}
-        key = None
-        what = '%s history rejected by the C08 P-spec at event %d: %s' % (kind, ln, brief([ev])[0] if ev else '?')
-        if ev.get('ev') == 'panic':
-            key = classify_panic(seg, ln)
-            what = '%s: Process panicked (%s) [%s]' % (kind, ev.get('panic'), key or 'consistent fragment sequence')
-            if key == 'D1':
-                ctx.extra['crash_on_inconsistent'] = ctx.extra.get('crash_on_inconsistent', 0) + 1
-        ctx.violation(what, dict(kind=kind, events=seg[:ln + 1], **(extra or {})), key=key)
-
-
 # ------------------------------------------------------------------ sections
 def e1(ctx):
     """Exhaustive TLC runs on the closed model."""
     if not ctx.thorough():
         ctx.tlc('Frag', cfg(constants=consts(4, 4), invariants=ALL), SPEC, name='E1-1key-NB4x4', must_pass=True)
-        r = ctx.tlc('Frag', cfg(constants=consts(2, 3, keys=2, callers=2, high=3, low=2, timeout=0, maxtick=1, atomic=False),
-                                invariants=SAFE), SPEC, name='E1-2callers-small', must_pass=True, coverage=True)
+        r = ctx.tlc('Frag', cfg(constants=consts(2, 3, keys=1, callers=2, high=3, low=2, timeout=0, maxtick=1, atomic=False),
+                                invariants=SAFE), SPEC, name='E1-2callers-small', must_pass=True, coverage=True,
+                    workers=min(ctx.workers, 4))
     else:
         ctx.tlc('Frag', cfg(constants=consts(5, 5), invariants=ALL), SPEC, name='E1-1key-NB5x5', must_pass=True, timeout=3000)
         ctx.tlc('Frag', cfg(constants=consts(3, 4, keys=2, high=3, low=2), invariants=ALL), SPEC,
@@ -144,17 +131,19 @@ def e1(ctx):
     need = {'Lookup', 'Work', 'Account', 'Tick'}
     if z or not need <= set(r.cov):
         raise vlib.Inconclusive('vacuity: actions never taken in the concurrent model: %s (seen %s)' % (z, sorted(r.cov)))
-    # spec sensitivity self-tests: the shapes before the fix: commits must be refuted by TLC
-    r1 = ctx.tlc('Frag', cfg(constants=consts(3, 3, fixd1=False), invariants=['NoCrash']), SPEC, name='selftest-model-D1', count=False)
-    r3 = ctx.tlc('Frag', cfg(constants=consts(2, 3, callers=2, fixd3=False, atomic=False), invariants=['NoCrash']), SPEC,
-                 name='selftest-model-D3', count=False)
-    if r1.ok or r3.ok:
-        raise vlib.Inconclusive('model self-test: pre-fix shapes D1/D3 were expected to violate NoCrash (%s, %s)' % (r1.ok, r3.ok))
-    ctx.extra['model_selftest'] = 'pre-fix D1 shape: NoCrash violated in %d states; pre-fix D3 shape: in %d states' % (r1.distinct, r3.distinct)
+    if ctx.thorough():
+        # spec sensitivity self-tests: the shapes before the fix: commits must be refuted by TLC
+        r1 = ctx.tlc('Frag', cfg(constants=consts(3, 3, fixd1=False), invariants=['NoCrash']), SPEC, name='selftest-model-D1', count=False)
+        r3 = ctx.tlc('Frag', cfg(constants=consts(2, 3, callers=2, fixd3=False, atomic=False), invariants=['NoCrash']), SPEC,
+                     name='selftest-model-D3', count=False)
+        if r1.ok or r3.ok:
+            raise vlib.Inconclusive('model self-test: pre-fix shapes D1/D3 were expected to violate NoCrash (%s, %s)' % (r1.ok, r3.ok))
+        ctx.extra['model_selftest'] = 'pre-fix D1 shape: NoCrash violated in %d states; pre-fix D3 shape: in %d states' % (r1.distinct, r3.distinct)
 
 
 def graph_replay(ctx, drv, name, c, variants, high=99, low=99, nkeys=1):
-    r = ctx.tlc('Frag', cfg(constants=c, invariants=ALL), SPEC, name=name, dump_dot=True, must_pass=True, timeout=3000)
+    r = ctx.tlc('Frag', cfg(constants=c, invariants=ALL), SPEC, name=name, dump_dot=True, must_pass=True, timeout=3000,
+                workers=min(ctx.workers, 4))
     script, stats = vlib.graph_script(ctx, r, extra=dict(variants=variants, high=high, low=low, nkeys=nkeys, inf=c['NB'] + 2))
     # the driver needs only the P-expectation and the I-level projection of each state
     for sid, st in script['states'].items():
@@ -169,9 +158,7 @@ def graph_replay(ctx, drv, name, c, variants, high=99, low=99, nkeys=1):
                                                   panics=res['extra']['panics'], variants=[v['name'] for v in variants])
     ctx.extra['replayed_transition_fraction'] = stats['replayed_transition_fraction']
     ctx.extra['crash_on_inconsistent'] = ctx.extra.get('crash_on_inconsistent', 0) + res['extra']['crash_on_inconsistent']
-    if res['extra']['delivered'] == 0:
-        raise vlib.Inconclusive('graph %s: no path delivered a datagram (vacuous replay)' % name)
-    ctx.traces += res['paths']
+    ctx.traces += res['paths'] - len(set(mm['path'] for mm in res['mismatches'] if mm['kind'] != 'drift'))
     for s in (res['extra'].get('samples') or [])[:1]:
         steps = [[st['a']] + st['args'] for st in script['paths'][s['path']]]
         ctx.sample(dict(kind='graph-path', graph=name, variant=s['variant'], steps=steps, payload=s['payload']))
@@ -187,23 +174,42 @@ def graph_replay(ctx, drv, name, c, variants, high=99, low=99, nkeys=1):
             continue
         key = 'D1' if mm['what'] == 'crash_on_inconsistent' else None
         ctx.violation('fragmentation.Process: %s (graph %s, step %d, %s; want %s)' % (mm['what'], name, mm['step'], mm.get('got'), mm.get('want')),
-                      dict(kind='graph', graph=name, constants={k: str(v) for k, v in c.items()}, steps=steps, mismatch=mm), key=key)
+                      dict(kind='graph', graph=name, nb=c['NB'], maxarr=c['MaxArr'], nkeys=nkeys, high=high, low=low,
+                           steps=steps, mismatch=mm), key=key)
+    if res['extra']['delivered'] == 0 and not ctx.violations:
+        raise vlib.Inconclusive('graph %s: no path delivered a datagram (vacuous replay)' % name)
 
 
-def trace_mode(ctx, drv, kind, args, max_reruns=6):
+def trace_mode(ctx, drv, kind, args):
+    """Run a history-producing driver mode; returns the histories (validated later, all kinds in one TLC start)."""
     tp = os.path.join(ctx.work, kind + '.ndjson')
     ctx.run([drv, kind, tp] + [str(a) for a in args], timeout=3000)
     segs = vlib.split_segments(vlib.read_ndjson(tp))
-    acc, rej = vlib.validate_segments(ctx, 'TraceFrag', TC, SPEC, segs, name=kind, max_reruns=max_reruns, timeout=3000)
-    ctx.traces += acc
     ctx.extra[kind + '_histories'] = len(segs)
     deliveries = sum(1 for s in segs for e in s if e.get('ev') == 'ret' and e.get('done'))
     ctx.extra[kind + '_deliveries'] = deliveries
-    if deliveries == 0:
+    if deliveries == 0 and not ctx.violations and not any(e.get('ev') == 'panic' for s in segs for e in s):
         raise vlib.Inconclusive('%s histories delivered nothing (vacuous)' % kind)
     ctx.sample(dict(kind=kind + '-history', events=brief(segs[0], 10)))
-    report_rejections(ctx, kind, segs, rej, extra=dict(args=[str(a) for a in args]))
-    return segs
+    return [dict(kind=kind, seg=s, info=dict(args=[str(a) for a in args])) for s in segs]
+
+
+def validate_all(ctx, items):
+    segs = [it['seg'] for it in items]
+    acc, rej = vlib.validate_segments(ctx, 'TraceFrag', TC, SPEC, segs, name='histories', max_reruns=8, timeout=3000)
+    ctx.traces += acc
+    for si, ln in rej:
+        it = items[si]
+        seg = it['seg']
+        ev = seg[ln] if ln < len(seg) else {}
+        key = None
+        what = '%s history rejected by the C08 P-spec at event %d: %s' % (it['kind'], ln, brief([ev])[0] if ev else '?')
+        if ev.get('ev') == 'panic':
+            key = classify_panic(seg, ln)
+            what = '%s: Process panicked (%s) [%s]' % (it['kind'], ev.get('panic'), key or 'consistent fragment sequence')
+            if key == 'D1':
+                ctx.extra['crash_on_inconsistent'] = ctx.extra.get('crash_on_inconsistent', 0) + 1
+        ctx.violation(what, dict(kind=it['kind'], events=seg[:ln + 1], **it['info']), key=key)
 
 
 # ---- gate scenarios: per caller a list of (k, first, last, more)
@@ -271,24 +277,25 @@ def gate(ctx, drv):
     for i in range(ctx.pick(1, 10)):
         scen.append(('seeded-%d' % i, random_scenario(ctx.rng)))
     sc = 8
-    allsegs, owner = [], []
+    nb = max(t[2] for _n, cs in scen for c in cs for t in c) + 1
+    nk = max(t[0] for _n, cs in scen for c in cs for t in c)
+    # one TLC run: the model graphs of all scenarios (the scenario is chosen in Init)
+    mc = '---- MODULE MCFragS ----\nEXTENDS Frag\nScriptDef == << %s >>\n====\n' % ',\n   '.join(tla_script(cs) for _n, cs in scen)
+    c = consts(nb, 99, keys=nk, callers=2, atomic=False, scripts='<- ScriptDef')
+    r = ctx.tlc('MCFragS', cfg(constants=c, invariants=SAFE), SPEC, name='gate-model', files={'MCFragS.tla': mc},
+                dump_dot=True, must_pass=True, timeout=3000, workers=2)
+    nodes, edges, _init = vlib.tlaval.parse_dot(os.path.join(r.dir, 'graph.dot'))
+    mk, msn = {}, {}
+    for nid, t in nodes.items():
+        st = vlib.tlaval.parse_state(t)
+        st['_inf'] = nb + 2
+        mk[nid] = model_key(st, sc)
+        msn[nid] = st['sn']
+    items = []
     stats = {}
     leak = 0
-    for name, callers in scen:
-        nb = max(t[2] for c in callers for t in c) + 1
-        nk = max(t[0] for c in callers for t in c)
-        # model graph of exactly this scenario
-        mc = '---- MODULE MCFragS ----\nEXTENDS Frag\nScriptDef == %s\n====\n' % tla_script(callers)
-        c = consts(nb, 99, keys=nk, callers=2, atomic=False, script='<- ScriptDef')
-        r = ctx.tlc('MCFragS', cfg(constants=c, invariants=SAFE), SPEC, name='gate-model-' + name, files={'MCFragS.tla': mc},
-                    dump_dot=True, must_pass=True)
-        nodes, edges, _init = vlib.tlaval.parse_dot(os.path.join(r.dir, 'graph.dot'))
-        mk = {}
-        for nid, t in nodes.items():
-            st = vlib.tlaval.parse_state(t)
-            st['_inf'] = nb + 2
-            mk[nid] = model_key(st, sc)
-        medges = set((mk[s], model_label(lab), mk[d]) for s, d, lab in edges)
+    for si, (name, callers) in enumerate(scen):
+        medges = set((mk[s], model_label(lab), mk[d]) for s, d, lab in edges if msn[s] == si + 1)
         # complete interleaving graph of the real code
         sp = os.path.join(ctx.work, 'scenario-%s.json' % name)
         vlib.write_json(sp, dict(callers=[[dict(k=t[0], first=t[1], last=t[2], more=t[3]) for t in c_] for c_ in callers],
@@ -300,13 +307,14 @@ def gate(ctx, drv):
             raise vlib.Inconclusive('real-code exploration truncated (%s)' % name)
         redges = set((e['src'], e['label'], e['dst']) for e in g['edges'])
         cmp_ = vlib.compare_graphs(medges, redges)
-        stats[name] = dict(model_states=r.distinct, real_states=len(g['states']), real_edges=len(g['edges']), common=cmp_['common'],
-                           model_only=cmp_['n_model_only'], real_only=cmp_['n_real_only'], runs=g['runs'])
-        if cmp_['n_model_only'] or cmp_['n_real_only']:
+        stats[name] = dict(real_states=len(g['states']), real_edges=len(g['edges']), model_edges=cmp_['model_edges'],
+                           common=cmp_['common'], model_only=cmp_['n_model_only'], real_only=cmp_['n_real_only'], runs=g['runs'])
+        panicked = any(ev.get('ev') == 'panic' for e in g['edges'] for ev in (e['events'] or []))
+        if (cmp_['n_model_only'] or cmp_['n_real_only']) and not panicked:
             ctx.model_drift('gate scenario %s: real interleaving graph differs from the I-spec graph: model-only %s real-only %s' % (
                 name, cmp_['model_only'][:1], cmp_['real_only'][:1]))
-        leak += sum(1 for s in g['states'].values() if all(w.startswith('idle') for w in s['w']) and s['fsize'] != s['sum_sizes'])
-        bad = [k for k, s in g['states'].items() if s['inmap'] != s['inlist']]
+        leak += sum(1 for s_ in g['states'].values() if all(w.startswith('idle') for w in s_['w']) and s_['fsize'] != s_['sum_sizes'])
+        bad = [k for k, s_ in g['states'].items() if s_['inmap'] != s_['inlist']]
         if bad:
             ctx.model_drift('gate scenario %s: reassemblers map and LRU list disagree in %d states' % (name, len(bad)))
         paths, ncov, ne = vlib.real_graph_paths(g, rng=ctx.rng)
@@ -315,26 +323,14 @@ def gate(ctx, drv):
         for k, p in enumerate(paths):
             seg = [dict(ev='reset', mode='strict', scenario=name, path=k)]
             for e in p:
-                seg.extend(e['events'])
-            allsegs.append(seg)
-            owner.append((name, callers, [e['move'] for e in p]))
-    acc, rej = vlib.validate_segments(ctx, 'TraceFrag', TC, SPEC, allsegs, name='gate-ptraces', timeout=3000)
-    ctx.traces += acc
+                seg.extend(e['events'] or [])
+            items.append(dict(kind='gate', seg=seg, info=dict(scenario=name, callers=callers, moves=[e['move'] for e in p])))
     ctx.extra['gate'] = stats
-    ctx.extra['gate_ptraces'] = len(allsegs)
+    ctx.extra['gate_ptraces'] = len(items)
     ctx.extra['accounting_leak_quiescent_states'] = leak
-    ctx.sample(dict(kind='gate-path', scenario=owner[0][0], moves=owner[0][2][:12], events=brief(allsegs[0], 8)))
-    for si, ln in rej:
-        seg = allsegs[si]
-        ev = seg[ln] if ln < len(seg) else {}
-        key = classify_panic(seg, ln) if ev.get('ev') == 'panic' else None
-        if key == 'D1':
-            ctx.extra['crash_on_inconsistent'] = ctx.extra.get('crash_on_inconsistent', 0) + 1
-        what = ('2 callers under the gate scheduler (scenario %s): ' % owner[si][0]) + (
-            'Process panicked (%s) [%s]' % (ev.get('panic'), key or 'consistent fragment sequence') if ev.get('ev') == 'panic'
-            else 'behaviour rejected by the C08 P-spec at event %d: %s' % (ln, brief([ev])[0] if ev else '?'))
-        ctx.violation(what, dict(kind='gate', scenario=owner[si][0], callers=owner[si][1], moves=owner[si][2], events=seg[:ln + 1]), key=key)
-    return allsegs
+    ctx.sample(dict(kind='gate-path', scenario=items[0]['info']['scenario'], moves=items[0]['info']['moves'][:12],
+                    events=brief(items[0]['seg'], 8)))
+    return items
 
 
 def selftest(ctx, segs):
@@ -347,6 +343,8 @@ def selftest(ctx, segs):
             base = s
             break
     if base is None:
+        if ctx.violations:
+            return
         raise vlib.Inconclusive('binding self-test: no history with a delivery')
     tests = {}
     b1 = copy.deepcopy(base)                       # one payload byte flipped
@@ -355,7 +353,7 @@ def selftest(ctx, segs):
             e['payload'][len(e['payload']) // 2] ^= 1
             break
     tests['payload-byte'] = b1
-    b2 = copy.deepcopy(base)                       # delivery reported one call early
+    b2 = copy.deepcopy(base)                       # delivery reported one call early (thorough tier)
     idx = [i for i, e in enumerate(b2) if e.get('ev') == 'ret']
     di = [i for i in idx if b2[i].get('done')][0]
     prev = [i for i in idx if i < di]
@@ -369,6 +367,8 @@ def selftest(ctx, segs):
     b4 = copy.deepcopy(base)                       # a delivery swallowed
     b4[di] = dict(b4[di], done=False, payload=[])
     tests['missing-delivery'] = b4
+    if not ctx.thorough():
+        tests = {k: tests[k] for k in ('payload-byte',)}
     for nm, b in tests.items():
         a, rj = vlib.validate_segments(ctx, 'TraceFrag', TC, SPEC, [b], name='selftest-' + nm, count=False)
         if not rj:
@@ -391,22 +391,49 @@ def run(ctx):
     # ---- E1 exhaustive ----
     e1(ctx)
 
-    # ---- E3 sequential seeded histories ----
-    seqs = trace_mode(ctx, drv, 'seq', [ctx.seed, ctx.pick(150, 1500)])
-
-    # ---- E5 gate: 2 callers, complete interleaving graph ----
-    gate(ctx, drv)
-
-    # ---- E4 free-running goroutines ----
-    trace_mode(ctx, drv, 'race', [ctx.seed, ctx.pick(40, 400), 4, 5], max_reruns=4)
-
-    # ---- timeout (real clock, lower bounds only) ----
-    trace_mode(ctx, drv, 'timeout', [ctx.seed, ctx.pick(12, 60)])
+    # ---- real-code histories: sequential seeded (E3), 2 callers under the gate (E5), free-running goroutines (E4),
+    #      real-clock timeout; all validated / linearized by TLC against TraceFrag in one start
+    items = trace_mode(ctx, drv, 'seq', [ctx.seed, ctx.pick(100, 1000)])
+    seqs = [it['seg'] for it in items]
+    items += gate(ctx, drv)
+    items += trace_mode(ctx, drv, 'race', [ctx.seed, ctx.pick(40, 400), 4, 5])
+    items += trace_mode(ctx, drv, 'timeout', [ctx.seed, ctx.pick(12, 60)])
+    validate_all(ctx, items)
 
     selftest(ctx, seqs)
+    assumptions(ctx)
+
+
+def assumptions(ctx):
     ctx.assumptions += [
         'Go runtime (mutexes, scheduler) and the gate scheduler are trusted; hook H7 sits between the critical sections of Process',
         'fragment identity is the uint32 id passed to Process; hash collisions between datagrams are out of scope',
         'timeout histories use only lower bounds on time (sleep 120 ms > 50 ms timeout); delivery is never demanded there',
         'memory-limit graphs: delivery is demanded only while the bytes of all arrived, undelivered fragments stay within the high limit',
     ]
+
+
+def replay(ctx, rep):
+    """vcheck C08 --replay file: run the recorded case again on the real code and let the P-spec decide."""
+    drv = ctx.go_build('fragd')
+    ctx.extra['crash_on_inconsistent'] = 0
+    r = rep.get('replay', {})
+    kind = r.get('kind')
+    tp = os.path.join(ctx.work, 'replay.ndjson')
+    if kind == 'graph':
+        # regenerate the graph of the recorded configuration; every transition (the recorded path included) is replayed
+        graph_replay(ctx, drv, r['graph'], consts(r['nb'], r['maxarr'], keys=r['nkeys'], high=r['high'], low=r['low']),
+                     VARIANTS if r['high'] >= 99 else VARIANTS_MEM, high=r['high'], low=r['low'], nkeys=r['nkeys'])
+    elif kind == 'gate':
+        ip = os.path.join(ctx.work, 'replay-gate.json')
+        vlib.write_json(ip, dict(callers=[[dict(k=t[0], first=t[1], last=t[2], more=t[3]) for t in c_] for c_ in r['callers']],
+                                 variant=dict(name='x8', scale=8), moves=r['moves']))
+        ctx.run([drv, 'gatepath', ip, tp])
+        validate_all(ctx, [dict(kind='gate', seg=s_, info=dict(scenario=r.get('scenario'), callers=r['callers'], moves=r['moves']))
+                           for s_ in vlib.split_segments(vlib.read_ndjson(tp))])
+    elif kind in ('seq', 'timeout', 'race'):
+        # seeded modes are re-run with the recorded arguments (race: new schedules of the same workload)
+        validate_all(ctx, trace_mode(ctx, drv, kind, r['args']))
+    else:
+        raise vlib.Inconclusive('unknown replay kind %r' % kind)
+    assumptions(ctx)
